@@ -498,15 +498,19 @@ def standard_check(cfg):
     # --- verdict ----------------------------------------------------------------------------
     sigf = cfg.get("signature")
     reported = set()
-    for tag, f in all_fails:
+    case_cache = {}
+    for tag, f in all_fails[:5000]:
         s = dict(streams)[tag]
         cid = case_of(f)
-        case_lines = extract_case(s.keep, cid) if cid is not None else []
-        sig = sigf(f, case_lines) if sigf else None
+        # signature from the message alone when possible (cheap); the case block is only extracted for reported failures
+        sig = sigf(f, []) if sigf else None
         key = sig or "first"
         if key in reported:
             continue
         reported.add(key)
+        if (tag, cid) not in case_cache:
+            case_cache[(tag, cid)] = extract_case(s.keep, cid) if cid is not None else []
+        case_lines = case_cache[(tag, cid)]
         chk.violation("propfail-" + re.sub(r"\W+", "_", key)[:40],
                       {"what": "the property fails on the implementation for this concrete input", "message": f[:4000],
                        "harness_args": s.args, "case": cid, "case_lines": case_lines[:400],
